@@ -1231,7 +1231,8 @@ type verdictSpec struct {
 	name    string
 	fn      string
 	cond    func(info *types.Info, cond ast.Expr) bool
-	posWant []string // acceptable first-argument suffixes of the Errorf call
+	all     func(info *types.Info, conds []ast.Expr) bool // optional: decided from all guards together
+	posWant []string                                      // acceptable first-argument suffixes of the Errorf call
 }
 
 func ruleBIND2(c *Ctx) {
@@ -1255,7 +1256,7 @@ func ruleBIND2(c *Ctx) {
 			}
 			v, ok := constInt(info, be.Y)
 			return ok && v == 1 && strings.Contains(exprString(be.X), "Results().Len()")
-		}, []string{"goMethod.Pos()"}},
+		}, nil, []string{"goMethod.Pos()"}},
 		{"return-type-conflict", "context.AssignActions", func(info *types.Info, e ast.Expr) bool {
 			u, ok := e.(*ast.UnaryExpr)
 			if !ok || u.Op != token.NOT {
@@ -1263,11 +1264,11 @@ func ruleBIND2(c *Ctx) {
 			}
 			call := isCallTo(info, u.X, "go/types.Identical")
 			return call != nil && call == ast.Unparen(u.X) && isField(info, call.Args[0], "internal/codegen", "actionMethod", "Return") && isField(info, call.Args[1], "internal/codegen", "actionMethod", "Return")
-		}, []string{"method.Method.Pos()"}},
+		}, nil, []string{"method.Method.Pos()"}},
 		{"method-names-no-rule", "context.AssignActions", func(info *types.Info, e ast.Expr) bool {
 			be, ok := e.(*ast.BinaryExpr)
 			return ok && be.Op == token.EQL && exprString(be.Y) == "nil" && typeIs(info.TypeOf(be.X), "parsergen/lr1", "Rule")
-		}, []string{"Method.Pos()"}},
+		}, nil, []string{"Method.Pos()"}},
 		{"rule-without-type", "context.AssignActions", func(info *types.Info, e ast.Expr) bool {
 			be, ok := e.(*ast.BinaryExpr)
 			if !ok || be.Op != token.EQL || exprString(be.Y) != "nil" {
@@ -1275,7 +1276,7 @@ func ruleBIND2(c *Ctx) {
 			}
 			ix, ok := ast.Unparen(be.X).(*ast.IndexExpr)
 			return ok && isField(info, ix.X, "internal/codegen", "context", "RuleGoTypes")
-		}, []string{"rule.Position"}},
+		}, nil, []string{"rule.Position"}},
 		{"no-matching-method", "context.AssignActions", func(info *types.Info, e ast.Expr) bool {
 			be, ok := e.(*ast.BinaryExpr)
 			if !ok || be.Op != token.EQL {
@@ -1283,7 +1284,7 @@ func ruleBIND2(c *Ctx) {
 			}
 			v, ok := constInt(info, be.Y)
 			return ok && v == 0 && strings.HasPrefix(exprString(be.X), "len(")
-		}, []string{"prod.Position"}},
+		}, nil, []string{"prod.Position"}},
 		{"ambiguous-methods", "context.AssignActions", func(info *types.Info, e ast.Expr) bool {
 			be, ok := e.(*ast.BinaryExpr)
 			if !ok || be.Op != token.GTR {
@@ -1291,11 +1292,22 @@ func ruleBIND2(c *Ctx) {
 			}
 			v, ok := constInt(info, be.Y)
 			return ok && v == 1 && strings.HasPrefix(exprString(be.X), "len(")
+		}, func(info *types.Info, conds []ast.Expr) bool {
+			// the same verdict as the tail of `switch len(m) { case 0: … case 1: … default: }`
+			ne := map[int64]bool{}
+			for _, e := range conds {
+				if be, ok := ast.Unparen(e).(*ast.BinaryExpr); ok && be.Op == token.NEQ && strings.HasPrefix(exprString(be.X), "len(") {
+					if v, ok := constInt(info, be.Y); ok {
+						ne[v] = true
+					}
+				}
+			}
+			return ne[0] && ne[1]
 		}, []string{"prod.Position"}},
 		{"unassigned-method", "context.AssignActions", func(info *types.Info, e ast.Expr) bool {
 			u, ok := e.(*ast.UnaryExpr)
 			return ok && u.Op == token.NOT && strings.HasSuffix(exprString(u.X), ".Empty()")
-		}, []string{"Method.Pos()"}},
+		}, nil, []string{"Method.Pos()"}},
 	}
 	for _, sp := range specs {
 		pk, fd := p.FuncDecl("internal/codegen", sp.fn)
@@ -1306,26 +1318,29 @@ func ruleBIND2(c *Ctx) {
 		}
 		info := pk.TypesInfo
 		found, logged := false, false
-		ast.Inspect(fd.Body, func(n ast.Node) bool {
-			ifs, ok := n.(*ast.IfStmt)
-			if !ok || !sp.cond(info, ast.Unparen(ifs.Cond)) {
-				return true
+		for _, g := range errorGuards(pk, fd) {
+			hit := false
+			for _, cnd := range g.conds {
+				if sp.cond(info, ast.Unparen(cnd)) {
+					hit = true
+				}
+			}
+			if !hit && sp.all != nil && sp.all(info, g.conds) {
+				hit = true
+			}
+			if !hit {
+				continue
 			}
 			found = true
-			ast.Inspect(ifs.Body, func(m ast.Node) bool {
-				call, ok := m.(*ast.CallExpr)
-				if !ok || !isErrLoggerMethod(calleeFunc(info, call)) || calleeFunc(info, call).Name() != "Errorf" {
-					return true
+			if calleeFunc(info, g.call).Name() != "Errorf" {
+				continue
+			}
+			for _, w := range sp.posWant {
+				if strings.HasSuffix(exprString(g.call.Args[0]), w) {
+					logged = true
 				}
-				for _, w := range sp.posWant {
-					if strings.HasSuffix(exprString(call.Args[0]), w) {
-						logged = true
-					}
-				}
-				return true
-			})
-			return true
-		})
+			}
+		}
 		switch {
 		case !found:
 			c.bad(rule, construct, p.Pos(fd.Pos()), "the condition that must fail the binding is no longer tested in %s", sp.fn)
@@ -1449,7 +1464,7 @@ func ruleBIND4(c *Ctx) {
 	info := ta.Set.Pkg.TypesInfo
 	var goType *ast.FuncLit
 	for _, u := range ta.Set.Uses {
-		if fl, ok := ast.Unparen(u.Binds["go_type"]).(*ast.FuncLit); ok {
+		if fl := funcLitOf(p, info, u.Binds["go_type"]); fl != nil {
 			goType = fl
 		}
 	}
@@ -1544,7 +1559,21 @@ func ruleBIND4(c *Ctx) {
 		rangesAll := false
 		ast.Inspect(wt.Body, func(n ast.Node) bool {
 			if rs, ok := n.(*ast.RangeStmt); ok {
-				if fv, _ := selField(info, rs.X); fv != nil && fv == stored {
+				// over the map itself, or over all of its keys (maps.Keys, possibly sorted)
+				x := ast.Unparen(rs.X)
+				for depth := 0; depth < 3; depth++ {
+					call, isCall := x.(*ast.CallExpr)
+					if !isCall || len(call.Args) != 1 {
+						break
+					}
+					switch fullName(calleeFunc(info, call)) {
+					case "slices.Sorted", "slices.Collect", "maps.Keys":
+						x = ast.Unparen(call.Args[0])
+					default:
+						depth = 3
+					}
+				}
+				if fv, _ := selField(info, x); fv != nil && fv == stored {
 					rangesAll = true
 				}
 			}
@@ -1568,4 +1597,108 @@ func outerOf(p *Program, pk *packages.Package, n ast.Node) ast.Node {
 		}
 	}
 	return n
+}
+
+// ---- BIND-5: the types of generated helper rules are inferred to a fixed point ----
+//
+// getReduceTypeForGeneratedRule derives a helper rule's type from the types of the rules its
+// production mentions, some of which are helper rules themselves (`@list(x, s)?` wraps
+// `@list(x, s)`). Nothing orders the productions so that a wrapped rule is typed before its
+// wrapper, hence the inference must repeat until a pass assigns nothing new: the store into
+// RuleGoTypes sets a flag and the enclosing loop runs again while the flag is set.
+func ruleBIND5(c *Ctx) {
+	const rule = "BIND-5"
+	p := c.Prog
+	pk, fd := p.FuncDecl("internal/codegen", "context.AssignActions")
+	if fd == nil {
+		c.unres(rule, "codegen.context.AssignActions", "", "function not found")
+		return
+	}
+	info := pk.TypesInfo
+	par := parents(fd)
+	nStores := 0
+	for _, sc := range funcScope(p, pk, fd, 1) {
+		owner, ok := sc.node.(*ast.FuncDecl)
+		if !ok {
+			continue
+		}
+		opar := par
+		if owner != fd {
+			opar = parents(owner)
+		}
+		ast.Inspect(owner.Body, func(n ast.Node) bool {
+			as, ok := n.(*ast.AssignStmt)
+			if !ok || len(as.Lhs) != 1 || len(as.Rhs) != 1 {
+				return true
+			}
+			ix, ok := ast.Unparen(as.Lhs[0]).(*ast.IndexExpr)
+			if !ok || !isField(info, ix.X, "internal/codegen", "context", "RuleGoTypes") {
+				return true
+			}
+			src, ok := ast.Unparen(resolveLocal(info, owner, as.Rhs[0])).(*ast.CallExpr)
+			if !ok {
+				return true
+			}
+			if f := calleeFunc(info, src); f == nil || f.Name() != "getReduceTypeForGeneratedRule" {
+				return true
+			}
+			nStores++
+			construct := funcKey(pk, owner) + "/generated-rule-types/fixed-point"
+			// the flag set together with the store
+			var flag types.Object
+			for _, st := range enclosingList(opar, as) {
+				if fa, ok := st.(*ast.AssignStmt); ok && fa != as && len(fa.Lhs) == 1 && len(fa.Rhs) == 1 && exprString(fa.Rhs[0]) == "true" && st.Pos() > as.Pos() {
+					flag = usesObj(info, fa.Lhs[0])
+				}
+			}
+			if flag == nil {
+				c.bad(rule, construct, p.Pos(as.Pos()), "a newly inferred type is stored without recording that the pass changed something: wrappers of helper rules typed later in the same pass stay untyped (a correct grammar is rejected with 'rule missing action method')")
+				return true
+			}
+			// an enclosing loop that repeats while the flag is set
+			okLoop := false
+			for q := opar[ast.Node(as)]; q != nil; q = opar[q] {
+				fs, isFor := q.(*ast.ForStmt)
+				if !isFor {
+					continue
+				}
+				if fs.Cond != nil && usesObj(info, fs.Cond) == flag {
+					okLoop = true
+				}
+				if fs.Cond == nil {
+					for _, st := range fs.Body.List {
+						ifs, ok := st.(*ast.IfStmt)
+						if !ok || len(ifs.Body.List) != 1 || st.Pos() < as.Pos() {
+							continue
+						}
+						br, ok := ifs.Body.List[0].(*ast.BranchStmt)
+						if !ok || br.Tok != token.BREAK {
+							continue
+						}
+						if u, ok := ast.Unparen(ifs.Cond).(*ast.UnaryExpr); ok && u.Op == token.NOT && usesObj(info, u.X) == flag {
+							okLoop = true
+						}
+					}
+				}
+				if okLoop {
+					// the flag is cleared at the start of every pass
+					cleared := false
+					for _, st := range fs.Body.List {
+						if fa, ok := st.(*ast.AssignStmt); ok && len(fa.Lhs) == 1 && usesObj(info, fa.Lhs[0]) == flag && exprString(fa.Rhs[0]) == "false" && st.End() <= as.Pos() {
+							cleared = true
+						}
+					}
+					okLoop = cleared
+					break
+				}
+			}
+			c.check(okLoop, rule, construct, p.Pos(as.Pos()),
+				fmt.Sprintf("the inference pass repeats while %s is set, and %s is cleared at the start of each pass and set by every store", flag.Name(), flag.Name()),
+				"the inference of helper-rule types is not repeated until a pass assigns nothing new")
+			return true
+		})
+	}
+	if nStores == 0 {
+		c.unres(rule, "codegen.context.AssignActions/generated-rule-types", p.Pos(fd.Pos()), "no store of an inferred helper-rule type into RuleGoTypes found")
+	}
 }
